@@ -227,6 +227,20 @@ fn one_session(ctx: &mut Ctx, source: &str, root: &str, iter: u64) -> Option<Str
         let mut want: Vec<Vec<u8>> = cs.iter().map(|ci| id_int::<T>(&sorted[*ci])).collect();
         want.sort();
         want.dedup();
+        // the crate's own entry points (default strategy: first cheater) get the *untweaked* package and tweak it themselves
+        {
+            let r = if tweaked { tr::aggregate_with_tweak(&pkg, &s2, &grp.pkp, merkle.as_deref()) } else { tr::aggregate(&pkg, &s2, &grp.pkp) };
+            match r {
+                Ok(_) => ctx.viol("cheater-identification-parity", "accepted/crate-entry-point", d("altered shares accepted by the crate's aggregate entry point", json!({"cell": format!("P{par_p}/Q{par_q}/R{par_r}")}))),
+                Err(e) => {
+                    let cul: Vec<Vec<u8>> = e.culprits().iter().map(id_int::<T>).collect();
+                    if cul != vec![want[0].clone()] {
+                        ctx.viol("cheater-identification-parity", "culprits/crate-entry-point", d("the crate's aggregate entry point names someone other than the first cheater", json!({"cell": format!("P{par_p}/Q{par_q}/R{par_r}"), "err": format!("{e:?}"), "cheaters": cs})));
+                    }
+                }
+            }
+            ctx.count("cheater_verdicts");
+        }
         for (mode, mname) in [(CheaterDetection::FirstCheater, "first"), (CheaterDetection::AllCheaters, "all"), (CheaterDetection::Disabled, "disabled")] {
             let r = frost_core::aggregate_custom(&pkg, &s2, &eff_pkp, mode);
             match r {
